@@ -983,6 +983,14 @@ func parseStatsGroupOp(op GroupOperator, value []byte, table TableName, stats *[
 	if cerr == nil && num == 0 {
 		return ParseStats([]byte("state != 9999"), table, stats, options)
 	}
+	// sum, avg, min and max have no filter: they cannot be part of a group
+	if cerr == nil && num > 0 && num <= len(*stats) {
+		for _, stat := range (*stats)[len(*stats)-num:] {
+			if stat.statsType != Counter {
+				return errors.New("only Stats counters can be combined, not sum, avg, min or max")
+			}
+		}
+	}
 	err = parseFilterGroupOp(op, value, stats)
 	if err != nil {
 		return err
